@@ -21,8 +21,9 @@ type pkgInfo struct {
 }
 
 type ghostDecl struct {
-	name string
-	typ  types.Type
+	name     string
+	typ      types.Type
+	refKeyed bool // keys are object references: entries of objects allocated by a function are its own business
 }
 
 type specFuncInfo struct {
@@ -72,7 +73,7 @@ func NewEngine(repo string) *Engine {
 		"now": intT, "timerDeadline": im, "chanSent": im, "chanClosed": bm, "lockHeld": im, "onceDone": bm,
 		"ev_spawn": intT, "ev_exit": intT,
 	} {
-		e.ghostDecls[n] = &ghostDecl{n, t}
+		e.ghostDecls[n] = &ghostDecl{name: n, typ: t}
 	}
 	return e
 }
@@ -147,7 +148,7 @@ func (e *Engine) LoadContracts(libDir string) error {
 			e.blocks[k] = b
 		}
 		for _, ev := range cf.Events {
-			e.ghostDecls["ev_"+ev] = &ghostDecl{"ev_" + ev, intT}
+			e.ghostDecls["ev_"+ev] = &ghostDecl{name: "ev_" + ev, typ: intT}
 		}
 		e.axioms = append(e.axioms, cf.Axioms...)
 	}
@@ -361,7 +362,11 @@ func (e *Engine) setupSpecs() error {
 				}
 				return fmt.Errorf("%s: global %s: cannot resolve type %s", cf.Path, f[0], f[1])
 			}
-			e.ghostDecls[f[0]] = &ghostDecl{f[0], t}
+			gd := &ghostDecl{name: f[0], typ: t}
+			if mt, ok := t.Underlying().(*types.Map); ok && cf.PkgPath == "" && isInteger(mt.Key()) {
+				gd.refKeyed = true
+			}
+			e.ghostDecls[f[0]] = gd
 		}
 		for _, sf := range cf.Specs {
 			if _, ok := e.specFuncs[sf.Name]; ok {
